@@ -22,15 +22,15 @@ class Worker:
         self.verifier = histsim.Verifier(self.oracle, self.oracle2, self.presets, self.import_table)
         self.cold_checks = 0
 
-    def execute(self, ops, passive):
-        return self.sim.history(ops, passive)
+    def execute(self, ops, passive, warn_mode="ignore"):
+        return self.sim.history(ops, passive, warn_mode=warn_mode)
 
-    def run_ops(self, ops, passive, probes=None, second=False, cold_seed=None):
-        log = self.execute(ops, passive)
-        viols = self.verifier.verify(ops, log, probes, second)
+    def run_ops(self, ops, passive, probes=None, second=False, cold_seed=None, warn_mode="ignore"):
+        log = self.execute(ops, passive, warn_mode)
+        viols = self.verifier.verify(ops, log, probes, second, warn_mode)
         if cold_seed is not None:
             # the same history in a cold interpreter of another hash seed must give the same log
-            cold = procs.cold_history(ops, passive, cold_seed)
+            cold = procs.cold_history(ops, passive, cold_seed, warn_mode)
             for idx, (a, b) in enumerate(zip(log, cold)):
                 if a["r"][:2] != b["r"][:2] or a.get("p") != b.get("p"):
                     viols.append(histsim.Violation("history_eq_cold_interpreter", idx, {
@@ -68,7 +68,9 @@ def run_one(prop, base_seed, i, want_sample=False):
     # every 4th run is judged by two oracle interpreters (hash seeds 77 and 4242) that must agree
     cold_seed = (1000 + i) if i % 16 == 5 else None
     cfg["cold_seed"] = cold_seed
-    log, viols = W.run_ops(ops, cfg["passive"], probes, second=(i % 4 == 0), cold_seed=cold_seed)
+    log, viols = W.run_ops(ops, cfg["passive"], probes, second=(i % 4 == 0), cold_seed=cold_seed,
+                           warn_mode=cfg.get("warn_mode", "ignore"))
+    probes["warn_mode:" + cfg.get("warn_mode", "ignore")] = 1
     mine = [v for v in viols if prop in histsim.ORACLE_PROPS.get(v.oracle, {})]
     summary = {
         "i": i,
@@ -122,7 +124,8 @@ def judge(W, prop, cfg, ops, viols, summary, base_seed, i):
         summary["known"].append({"id": k["id"], "what": k["what"], "class": rep["violation_class"]})
         drop = report.peel_ids(k, rep)
         cur = [op for op in cur if op["id"] not in drop]
-        _, viols = W.run_ops(cur, cfg["passive"], second=(i % 4 == 0), cold_seed=cfg.get("cold_seed"))
+        _, viols = W.run_ops(cur, cfg["passive"], second=(i % 4 == 0), cold_seed=cfg.get("cold_seed"),
+                             warn_mode=cfg.get("warn_mode", "ignore"))
 
 
 def _h(x):
@@ -178,7 +181,8 @@ def minimise(W, prop, cfg, ops, viol, budget=500):
         spent[0] += 1
         try:
             log, viols = W.run_ops(cand, passive, second=(cls == "oracles_agree"),
-                                   cold_seed=cfg.get("cold_seed") if cls == "history_eq_cold_interpreter" else None)
+                                   cold_seed=cfg.get("cold_seed") if cls == "history_eq_cold_interpreter" else None,
+                                   warn_mode=cfg.get("warn_mode", "ignore"))
         except procs.HarnessError:
             return None
         v = _same(viols, cls)
